@@ -21,6 +21,8 @@ package convert
 //@   ensures[C09] in_loop 2 nil_when_equal: (forall ((j Int)) (! (=> (and (trig j) (<= 0 j) (< j (Slice.len types)) (ty_eq (ty_at types j) result.0)) (= (select (select $H<Arr<Func>> (Slice.ptr result.1)) (+ (Slice.off result.1) j)) nil.Func)) :pattern ((trig j))))
 //@   loop 3 invariant (forall ((j Int)) (! (=> (and (trig j) (<= 0 j) (< j $i) (ty_eq (ty_at types j) wantType)) (= (select (select $H<Arr<Func>> (Slice.ptr conversions)) (+ (Slice.off conversions) j)) nil.Func)) :pattern ((trig j))))
 //@   loop 3 invariant (and (= (Slice.len conversions) (Slice.len types)) (< (Slice.ptr conversions) 0))
+//@   ensures[C09] in_loop 2 conv_for_pair: (forall ((j Int)) (! (=> (and (trig j) (<= 0 j) (< j (Slice.len types)) (not (ty_eq (ty_at types j) result.0))) (= (select (select $H<Arr<Func>> (Slice.ptr result.1)) (+ (Slice.off result.1) j)) (conv_fn (ty_at types j) result.0 unsafe))) :pattern ((trig j))))
+//@   loop 3 invariant (forall ((j Int)) (! (=> (and (trig j) (<= 0 j) (< j $i) (not (ty_eq (ty_at types j) wantType))) (= (select (select $H<Arr<Func>> (Slice.ptr conversions)) (+ (Slice.off conversions) j)) (conv_fn (ty_at types j) wantType unsafe))) :pattern ((trig j))))
 //
 //@ func convert.unifyCollectionTypes
 //@   tags C20
@@ -63,10 +65,20 @@ package convert
 //@   frame_only
 //@   fresh result.1 when (not (= (Slice.ptr result.1) 0))
 //
+// unifyTupleTypesToList (C09): the same slot clause as unifyObjectTypesToMap, for the unified list type.
 //@ func convert.unifyTupleTypesToList
-//@   tags C20
+//@   tags C20 C09
 //@   frame_only
 //@   fresh result.1 when (not (= (Slice.ptr result.1) 0))
+//@   let n (Slice.len types)
+//@   requires (forall ((j Int)) (! (=> (and (trig j) (<= 0 j) (< j (Slice.len types))) (and (wf_ty (ty_at types j)) (is_tuple_ty (ty_at types j)))) :pattern ((trig j))))
+//@   ensures[C09] slots: (=> (not (= result.0 $G<cty.NilType>)) (and (= (Slice.len result.1) n) (forall ((j Int)) (! (=> (and (trig j) (<= 0 j) (< j n)) (let ((cv (select (select $H<Arr<Func>> (Slice.ptr result.1)) (+ (Slice.off result.1) j)))) (ite (ty_eq (ty_at types j) result.0) (= cv nil.Func) (= cv (conv_fn (ty_at types j) result.0 unsafe))))) :pattern ((trig j))))))
+//@   let etys_wf (and (slice.ok etys) (forall ((j Int)) (! (=> (and (trig j) (<= 0 j) (< j (Slice.len etys))) (wf_ty (select ($at<Arr<cty.Type>> (Slice.ptr etys)) (+ (Slice.off etys) j)))) :pattern ((trig j)))))
+//@   loop 1 invariant etys_wf
+//@   loop 2 invariant etys_wf
+//@   loop 3 invariant (and (= (Slice.len conversions) n) (< (Slice.ptr conversions) 0) (= (Slice.off conversions) 0))
+//@   loop 3 invariant (forall ((j Int)) (! (=> (and (trig j) (<= $i j) (< j n)) (= (select (select $H<Arr<Func>> (Slice.ptr conversions)) j) nil.Func)) :pattern ((trig j))))
+//@   loop 3 invariant (forall ((j Int)) (! (=> (and (trig j) (<= 0 j) (< j $i)) (let ((cv (select (select $H<Arr<Func>> (Slice.ptr conversions)) j))) (ite (ty_eq (ty_at types j) retTy) (= cv nil.Func) (= cv (conv_fn (ty_at types j) retTy unsafe))))) :pattern ((trig j))))
 //
 //@ func convert.unifyTuplesAsList
 //@   tags C20
